@@ -102,16 +102,32 @@ func (m *seqModel) applicable(op SeqOp) bool {
 		return false
 	}
 	switch op.Op {
-	case "set", "keys", "lock":
+	case "set", "lock":
 		return !m.locked[op.L]
+	case "keys":
+		// Keys is not fixed by the statement: an implementation may enumerate inherited keys too,
+		// which reads every level up to the root - on one goroutine that blocks on a locked level
+		return !m.lockedUpTo(op.L)
 	case "get":
 		_, _, _, b := m.resolve(op.L, op.K, false)
 		return !b
-	case "lset", "lkeys", "commit":
+	case "lset", "commit":
 		return m.locked[op.L]
+	case "lkeys":
+		return m.locked[op.L] && !m.lockedUpTo(op.L - 1)
 	case "lget":
 		_, _, _, b := m.resolve(op.L, op.K, true)
 		return !b
+	}
+	return false
+}
+
+// lockedUpTo: some level 0..l is inside a locked section.
+func (m *seqModel) lockedUpTo(l int) bool {
+	for i := 0; i <= l && i < len(m.locked); i++ {
+		if m.locked[i] {
+			return true
+		}
 	}
 	return false
 }
@@ -153,7 +169,7 @@ func GenSeq(rt *rapid.T) SeqCase {
 			default:
 				op.Op = "commit"
 			}
-			if op.Op == "lget" && !m.applicable(op) {
+			if (op.Op == "lget" || op.Op == "lkeys") && !m.applicable(op) {
 				op.Op = "lset"
 			}
 		} else {
@@ -167,7 +183,7 @@ func GenSeq(rt *rapid.T) SeqCase {
 			default:
 				op.Op = "lock"
 			}
-			if op.Op == "get" && !m.applicable(op) {
+			if (op.Op == "get" || op.Op == "keys") && !m.applicable(op) {
 				op.Op = "set"
 			}
 		}
